@@ -181,13 +181,13 @@ def _lean_check(R, tier, seed):
     """thorough tier: the K6 lemmas behind the SMT axioms sqrt_3mod4 / sqrt_5mod8 are re-checked by lean"""
     import subprocess, time, os
     if tier != "thorough":
-        R.assumptions.add("K6 Lean lemmas (lean/NumberTheory.lean) are not re-checked in the quick tier; the thorough tier runs lean on them")
+        R.assumptions.add("K6 Lean lemmas (lean/NumberTheory.lean: square roots for p = 3 mod 4 / 5 mod 8, Jacobi-symbol facts from Mathlib) are not re-checked in the quick tier; the thorough tier runs lean on them")
         return
     t0 = time.time()
     root = os.path.dirname(os.path.dirname(os.path.abspath(__file__)))
     r = subprocess.run(["lean", os.path.join(root, "lean", "NumberTheory.lean")], capture_output=True, text=True, timeout=1500)
     ok = r.returncode == 0 and "error" not in r.stdout and "error" not in r.stderr
-    R.obl["lean:NumberTheory.lean#sqrt_3mod4+sqrt_5mod8"] = dict(n=1, ok=1 if ok else 0, seconds=time.time() - t0, backends=__import__("collections").Counter({"lean": 1}),
+    R.obl["lean:NumberTheory.lean#sqrt_3mod4+sqrt_5mod8+jacobi-symbol-lemmas"] = dict(n=1, ok=1 if ok else 0, seconds=time.time() - t0, backends=__import__("collections").Counter({"lean": 1}),
                                                                bad=[] if ok else [dict(path="-", line=None, verdict="lean failed", note=(r.stdout + r.stderr)[-400:], instance="lean")],
                                                                kind="lean-lemma", func="lean")
     R.solver_time["lean"] += time.time() - t0
@@ -200,12 +200,12 @@ PROPS["C15"] = dict(
     functions=[_NT + "inverse_mod", _NT + "jacobi", _NT + "square_root_mod_prime"],
     lemmas=[],
     bounded=[_B(_NT + "inverse_mod", "all a in [-2m-2, 2m+2] coprime to m for m < 60; structured a (negative, larger than m, 600-bit) for 10 large moduli"),
-             dict(function=_NT + "jacobi", role="bounded stand-in for `jacobi = product of Legendre symbols`", bound="all odd n < 400 (quick) / 3000 (thorough) x a in [-n, 2n] (n < 120) or structured a; the 17 field primes and orders"),
+             dict(function=_NT + "jacobi", role="CPython cross-check of the proved contract against the product of Legendre symbols (Euler criterion over the factorisation)", bound="all odd n < 400 (quick) / 3000 (thorough) x a in [-n, 2n] (n < 120) or structured a; the 17 field primes and orders; 2^e * odd arguments (e up to 128) over large prime and composite moduli"),
              dict(function=_NT + "square_root_mod_prime", role="CPython cross-check; bounded stand-in for the p = 1 (mod 8) branch", bound="all primes p < 400 (quick) / 2000 (thorough) x all residues a; the 34 curve primes/orders and 5 large primes x structured a")],
     min_obligations=10,
     trusted_base=["builtin pow(a, -1, m) and pow(b, e, m)", "K6 lemmas sqrt_3mod4 / sqrt_5mod8 (lean/NumberTheory.lean, checked by lean in the thorough tier)",
-                  "jacobi(a, p) == -1 iff a is a non-residue for prime p: ASSUMED at the call site in square_root_mod_prime (bounded stand-in only)"],
-    explanation="inverse_mod: range and a*i = 1 (mod m) for every a coprime to m (any sign/size) from the builtin's contract; jacobi: result in {-1,0,1}, the recursive call meets its asserts, termination by decreasing a1; square_root_mod_prime: for p = 3 (mod 4) and p = 5 (mod 8) root*root = a, 0 <= root < p, SquareRootError only for non-residues, RuntimeError unreachable (modulo the Lean lemmas and the assumed Legendre clause); p = 1 (mod 8) (Cipolla) and the Legendre-product equality of jacobi are bounded",
+                  "Jacobi-symbol facts (Mathlib: jacobiSym.trichotomy, mod_left, zero_left, one_left, mul_left, at_two, quadratic_reciprocity_if, legendreSym.to_jacobiSym, legendreSym.eq_neg_one_iff) as SMT axioms jac_*; restated and checked by lean in the thorough tier. jacobiSym is by definition the product of the Legendre symbols over the prime factorisation"],
+    explanation="inverse_mod: range and a*i = 1 (mod m) for every a coprime to m (any sign/size) from the builtin's contract; jacobi: result == J(a | n) (the Jacobi symbol, i.e. the product of Legendre symbols) for every a and every odd n >= 3 by the loop invariant J(a|n) = J(2|n)^e J(a1|n), the supplement for 2, quadratic reciprocity and the contract of the recursive call; hence -1 exactly for the non-residues of a prime modulus; termination by decreasing a1; square_root_mod_prime: for p = 3 (mod 4) and p = 5 (mod 8) root*root = a, 0 <= root < p, SquareRootError only for non-residues, RuntimeError unreachable (modulo the Lean lemmas); the p = 1 (mod 8) branch (Cipolla) is bounded",
 )
 PROPS["C16"] = dict(
     level="other",
@@ -263,7 +263,7 @@ PROPS["C08"] = dict(
     bounded=[dict(function="ecdsa.keys.VerifyingKey.from_string", role="CPython cross-check against an independent SEC 1 / X9.62 decoder; exhibits finding F7", bound="17 named curves x (G, 2G, (n-1)G, a random multiple, 6 (quick) / 40 (thorough) curve points found by x-scan) x 13 encodings (4 valid forms, wrong parity, wrong prefix, wrong lengths, y+1, -y) + out-of-range coordinates", budget_s={"quick": 12, "thorough": 300})],
     min_obligations=20,
     trusted_base=["coordinate world: INSUB(x, y) stands for `n * point == INFINITY` through the contracts of PointJacobi.__mul__/__eq__ (C06/C07); on cofactor-1 curves every curve point is in <G> (SEC 1 3.2.2.1)",
-                  "contract of square_root_mod_prime (C15); jacobi's Legendre clause assumed", "byte-string axioms; canonical polynomial form of x mod p arguments (sympy)"],
+                  "contract of square_root_mod_prime and of jacobi (C15; the Legendre clause is discharged from the Jacobi-symbol lemmas)", "byte-string axioms; canonical polynomial form of x mod p arguments (sympy)"],
     explanation="Public_key.__init__, point_is_valid, from_public_point and from_string (with the raw / uncompressed / hybrid / compressed decoders inlined) are executed from the real AST: a key is returned only for one of the four exact encodings with coordinates in range, on the curve and in the subgroup, it denotes the encoded point, and MalformedPointError is raised only when the specification rejects; DER/PEM containers are C09/C10",
 )
 
